@@ -10,7 +10,7 @@ from __future__ import annotations
 from ..models import intervals as iv
 from ..monitor import bump, oracle, violation
 from ..workloads import specs as W
-from ._spec_common import BUDGET, eval_tree
+from ._spec_common import BUDGET, eval_tree, small_scope_triples, spec_laws
 
 PROP = "C14"
 ANCHORS = ['dep_logic.specifiers.range:RangeSpecifier.__and__', 'dep_logic.specifiers.range:RangeSpecifier.__or__', 'dep_logic.specifiers.range:RangeSpecifier.__invert__', 'dep_logic.specifiers.union:UnionSpecifier.__and__', 'dep_logic.specifiers.union:UnionSpecifier.__or__', 'dep_logic.specifiers.union:UnionSpecifier.__invert__', 'dep_logic.markers.multi:MultiMarker.of', 'dep_logic.markers.union:MarkerUnion.of', 'dep_logic.utils:union', 'dep_logic.utils:intersection']
@@ -25,6 +25,7 @@ ASSUMPTIONS = [
     "marker environments are sampled from operand-derived critical values (final-release interpreters)",
 ]
 MIN_EVENTS = {"spec-law": 3000, "marker-law": 300}
+MIN_SHAPES = {}
 SHARDS = {"quick": 4, "thorough": 16}
 
 
@@ -34,36 +35,21 @@ def setup(ctx):
     markermon.prepare(ctx)
 
 
-def spec_laws(a, b, c):
-    yield "commutative-and", lambda: a & b, lambda: b & a
-    yield "commutative-or", lambda: a | b, lambda: b | a
-    yield "associative-and", lambda: (a & b) & c, lambda: a & (b & c)
-    yield "associative-or", lambda: (a | b) | c, lambda: a | (b | c)
-    yield "idempotent-and", lambda: a & a, lambda: a
-    yield "idempotent-or", lambda: a | a, lambda: a
-    yield "absorption-and", lambda: a & (a | b), lambda: a
-    yield "absorption-or", lambda: a | (a & b), lambda: a
-    yield "distributive-and", lambda: a & (b | c), lambda: (a & b) | (a & c)
-    yield "distributive-or", lambda: a | (b & c), lambda: (a | b) & (a | c)
-    yield "involution", lambda: ~~a, lambda: a
-    yield "de-morgan-and", lambda: ~(a & b), lambda: ~a | ~b
-    yield "de-morgan-or", lambda: ~(a | b), lambda: ~a & ~b
-    yield "complement-and", lambda: a & ~a, None
-    yield "complement-or", lambda: a | ~a, None
-
-
 def _spec_case(ctx):
     import dep_logic.specifiers as S
 
-    def per_case(trees, pool):
+    def per_case(trees, pool, given=None):
         vals = []
-        for t in trees:
-            root, _ = eval_tree(ctx, t, prop=PROP)
-            if root is None or not iv.readable(root):
-                return
-            vals.append(root)
+        if given is not None:
+            vals, texts = list(given[0]), list(given[1])
+        else:
+            for t in trees:
+                root, _ = eval_tree(ctx, t, prop=PROP)
+                if root is None or not iv.readable(root):
+                    return
+                vals.append(root)
+            texts = [W.tree_text(t)[:160] for t in trees]
         a, b, c = vals
-        texts = [W.tree_text(t)[:160] for t in trees]
         nontriv = all(not (x.is_empty() or x.is_any()) for x in vals) and len({iv.describe(x) for x in vals}) == 3
         if nontriv:
             ctx.nontrivial("spec", *[iv.describe(x) for x in vals])
@@ -102,14 +88,16 @@ def run(ctx):
     for i in range(n):
         if ctx.elapsed() > secs * 0.5:
             break
-        pool = W.version_pool(rnd, rnd.randint(4, 10))
-        trees = [W.gen_tree(rnd, pool, rnd.randint(0, 2)) for _ in range(3)]
+        big = rnd.random() < 0.2  # some triples over a large pool: unions of 9-16 ranges as operands
+        pool = W.version_pool(rnd, rnd.randint(28, 40) if big else rnd.randint(4, 10))
+        trees = [W.gen_tree(rnd, pool, rnd.randint(0, 2), hostile_p=0.6 if big else 0.3) for _ in range(3)]
         if sum(map(W.tree_size, trees)) > 30:
             continue
         ctx.cases += 1
         ctx.current_case = {"kind": "spec-triple", "trees": trees}
         ctx.guarded(10.0, per, trees, pool)
     ctx.current_case = None
+    small_scope_triples(ctx, lambda objs, texts: per(None, None, (objs, texts)))
     markermon.run_marker_laws(ctx, PROP)
 
 
@@ -118,5 +106,9 @@ def replay(ctx, case):
 
     if case["kind"] == "spec-triple":
         _spec_case(ctx)(case["trees"], None)
+    elif case["kind"] == "small-triple":
+        # the stratum shares leaf objects across triples: replay the whole stratum of this shard
+        per = _spec_case(ctx)
+        small_scope_triples(ctx, lambda objs, texts: per(None, None, (objs, texts)))
     else:
         markermon.replay_marker_law(ctx, PROP, case)
